@@ -163,20 +163,22 @@ def run(rep, tier, seed):
 
 def shared_extent_class(t, data):
     """Known class glr-spans-shared-extent: the tree comes from an AMBIGUOUS forest and the only nodes that violate the
-    span statement are inner nodes whose START is later than the start of their first child, where everything under
-    the node that lies before the node's start is empty nodes (the node carries the extent of another packed
-    alternative that begins with a token); ends, leaves (value = slice at span, order) are all as stated."""
+    span statement are inner nodes whose START differs from the start of their first child, where no token of the tree
+    lies in the gap between the two starts (the node carries the extent of another packed alternative: one of the two
+    alternatives begins with an empty node placed before the skipped layout, the other with the token after it); ends,
+    leaves (value = slice at span, order) are all as stated."""
     ok = [True]
     found = [False]
     prev_end = [0]
+    toks = []
 
-    def leaves_start(n):
+    def collect(n):
         if n[0] == "T":
-            return [n[3][0]]
-        r = []
-        for c in n[2]:
-            r.extend(leaves_start(c))
-        return r
+            toks.append((n[3][0], n[4][0]))
+        else:
+            for c in n[2]:
+                collect(c)
+    collect(t)
 
     def walk(n):
         if n[0] == "T":
@@ -197,10 +199,11 @@ def shared_extent_class(t, data):
         if en != cl[4][0]:
             ok[0] = False
         if st != c0[3][0]:
-            if st > c0[3][0] and all(x >= st for x in leaves_start(n)):
-                found[0] = True
-            else:
+            lo, hi = min(st, c0[3][0]), max(st, c0[3][0])
+            if any(a < hi and b > lo for a, b in toks):
                 ok[0] = False
+            else:
+                found[0] = True
     walk(t)
     return ok[0] and found[0]
 
